@@ -314,7 +314,9 @@ fn graph_case(src: &mut Src, root: &Path) -> CaseResult {
         ok = ok.class("same-data-import-in-several-modules");
     }
     if sample {
-        ok = ok.desc(Some(json!({"command": case()["command"], "output": m.out_str().trim()})));
+        let mut d = case();
+        d["output"] = json!(m.out_str().trim());
+        ok = ok.desc(Some(d));
     }
     Ok(ok)
 }
